@@ -7,6 +7,7 @@ import (
 	"fmt"
 	"strings"
 	"sync"
+	"time"
 
 	"github.com/safing/portbase/zzverif/vsched"
 )
@@ -24,6 +25,8 @@ type C20Params struct {
 	Shutdown  int    // root calls Shutdown after it has seen this many log calls return (-1: after everything went idle)
 	Second    bool   // a second thread calls Shutdown concurrently with the root
 	PkgInit   string // "", or a package level for the producers' package set before Start (Change "pkgdrop": a later SetPkgLevels without that package, "pkgunset": UnSetPkgLevels - both fall back to the global level)
+	PkgName   string // the package the PkgInit level is set for ("" = "log", the package of the in-package call sites; "c20" = the harness main package, see C20External)
+	Slow      int    // the adapter takes this many virtual milliseconds per line
 	Inline    bool   // Start runs inside the explored window and the root itself logs the lines of producer 0 before it calls Shutdown (no Quiesce after Start)
 }
 
@@ -35,6 +38,12 @@ func (p C20Params) Name() string {
 	n := fmt.Sprintf("c20/%s/sched=%s%d/level=%s/change=%s/buf=%d/shutdown=%d/second=%v", strings.Join(ps, "|"), p.Sched, p.Triggers, p.Level, p.Change, p.Buf, p.Shutdown, p.Second)
 	if p.PkgInit != "" {
 		n += "/pkginit=" + p.PkgInit
+	}
+	if p.PkgName != "" {
+		n += "/pkg=" + p.PkgName
+	}
+	if p.Slow > 0 {
+		n += fmt.Sprintf("/slow=%dms", p.Slow)
 	}
 	if p.Inline {
 		n += "/inline"
@@ -58,6 +67,31 @@ func c20sev(s string) Severity {
 		return CriticalLevel
 	}
 	panic("bad severity " + s)
+}
+
+// C20External makes one log call of the given kind from a call site outside package log (set by the harness main package,
+// whose directory name "c20" is what the logger takes as the caller's package). Kinds: "Warningf" (plain function),
+// "N.Warningf" (method on a nil tracer), "R.Warningf" (the only line of a real tracer, followed by Submit).
+// It reports whether anything was submitted (false: no tracer is available at the level in force).
+var C20External func(kind, text string) bool
+
+func c20kindSev(kind string) Severity {
+	k := strings.TrimSuffix(strings.TrimPrefix(strings.TrimPrefix(kind, "N."), "R."), "f")
+	switch k {
+	case "Trace":
+		return TraceLevel
+	case "Debug":
+		return DebugLevel
+	case "Info":
+		return InfoLevel
+	case "Warning":
+		return WarningLevel
+	case "Error":
+		return ErrorLevel
+	case "Critical":
+		return CriticalLevel
+	}
+	panic("bad kind " + kind)
 }
 
 type c20call struct {
@@ -88,6 +122,7 @@ type c20state struct {
 	shutCall  int
 	shutRet   int
 	issues    []vsched.Issue
+	slow      time.Duration
 }
 
 var c20 *c20state
@@ -106,6 +141,9 @@ type c20adapter struct{}
 func (c20adapter) Write(msg Message, duplicates uint64) {
 	vsched.Point("adapter-slow") // a slow output: anything may happen while a line is being written
 	s := c20
+	if s.slow > 0 {
+		vsched.Sleep(s.slow)
+	}
 	s.seq++
 	d := c20delivery{text: msg.Text(), sev: msg.Severity(), dup: duplicates, seq: s.seq}
 	if ll, ok := msg.(*logLine); ok && ll.tracer != nil {
@@ -161,6 +199,13 @@ func c20produce(s *c20state, pi, li int, spec string) {
 			c20viaTracer(tr, text)
 			tr.Submit()
 		}
+	} else if strings.HasPrefix(parts[0], "X.") {
+		// one of the parallel entry points, called from outside package log
+		kind := strings.TrimPrefix(parts[0], "X.")
+		call.sev = c20kindSev(kind)
+		if !C20External(kind, text) {
+			call.sev = 0 // nothing was submitted: must not be emitted
+		}
 	} else if parts[0] == "N" {
 		// a plain warning logged through the tracer API without a tracer: same call site as the main line of a submission
 		call.sev = WarningLevel
@@ -181,7 +226,7 @@ func VerifC20(p C20Params) *vsched.Scenario {
 	sc := &vsched.Scenario{Name: p.Name(), MaxSteps: 400000}
 	sc.Reset = func() {
 		VerifReset()
-		c20 = &c20state{shutCall: -1, shutRet: -1}
+		c20 = &c20state{shutCall: -1, shutRet: -1, slow: time.Duration(p.Slow) * time.Millisecond}
 	}
 	sc.Body = func() {
 		s := c20
@@ -194,7 +239,11 @@ func VerifC20(p C20Params) *vsched.Scenario {
 		SetLogLevel(lvl)
 		if p.PkgInit != "" {
 			pl := c20sev(p.PkgInit)
-			SetPkgLevels(map[string]Severity{"log": pl})
+			pn := p.PkgName
+			if pn == "" {
+				pn = "log"
+			}
+			SetPkgLevels(map[string]Severity{pn: pl})
 			s.level = [2]Severity{pl, pl}
 		}
 		total := 0
@@ -371,6 +420,7 @@ func c20judge(p C20Params, s *c20state) {
 	type item struct {
 		text string
 		seq  int
+		sev  Severity
 	}
 	perProducer := map[int][]item{}
 	for _, d := range s.delivered {
@@ -380,7 +430,7 @@ func c20judge(p C20Params, s *c20state) {
 			continue
 		}
 		for k := uint64(0); k <= d.dup; k++ {
-			perProducer[pi] = append(perProducer[pi], item{d.text, d.seq})
+			perProducer[pi] = append(perProducer[pi], item{d.text, d.seq, d.sev})
 		}
 	}
 	for pi := range p.Producers {
@@ -407,7 +457,10 @@ func c20judge(p C20Params, s *c20state) {
 				c20fail("nothing-below-the-level-is-emitted", "below-level", "line %q (severity %d) was emitted although the level in force was %v\n%s", c.text, c.sev, c.lvlStart, c20describe(s))
 				gi++
 			case present:
-				// delivered: in order, once
+				// delivered: in order, once, with the severity it was logged with
+				if got[gi].sev != c.sev {
+					c20fail("line-keeps-its-severity", "other-severity", "line %q was logged with severity %d and handed to the adapter with severity %d\n%s", c.text, c.sev, got[gi].sev, c20describe(s))
+				}
 				if c.retSeq < s.shutCall && must && got[gi].seq > s.shutRet {
 					c20fail("shutdown-returns-after-everything-logged-before-was-written", "written-after-return", "line %q was logged before Shutdown was called but written after it returned\n%s", c.text, c20describe(s))
 				}
